@@ -137,6 +137,7 @@ type Chain struct {
 	ProbeDenoms []string
 	ProbeAssets []string
 	Registry bool // project module parameters (scene option)
+	Mempool  bool // C19: behave like a node with a mempool and an RPC: CheckTx and Simulate every transaction before the block
 	RestartEveryBlock bool // C19: re-instantiate the application from its database after every committed block
 }
 
@@ -362,6 +363,17 @@ func (c *Chain) NextBlock(dt int64) (outs []txOutcome) {
 		}
 		txs = append(txs, bz)
 		c.txIndex[string(bz)] = len(txs) - 1
+	}
+	if c.Mempool {
+		// what a validator with a mempool and clients estimating gas does before the block arrives; none of it may influence
+		// the state transition (both run on branches of the check state that are never written)
+		for _, bz := range txs {
+			func() {
+				defer func() { recover() }()
+				c.App.CheckTx(&abci.RequestCheckTx{Tx: bz, Type: abci.CheckTxType_New})
+				c.App.Simulate(bz)
+			}()
+		}
 	}
 	c.obs = nil
 	var res *abci.ResponseFinalizeBlock
